@@ -21,6 +21,8 @@ CLAIMED = {
          "inter-procedural forced-branch reachability over enumerated descriptor classes and scenarios (BOUNDS / TABLE / SIBLING rules) on fiber_io.c and fiber_event_native.c"),
  "C09": ("sleep registration under the sleep lock with deferred unlock, poller lock/unlink/no-touch rules, strict expiry comparison table, deadline arithmetic evaluated with C integer widths over boundary durations, unit conversion and routing tables of sleep/usleep/nanosleep",
          "CFG lock-pair / dominance rules, reaching-definition NOTOUCH dataflow, enumerated arithmetic tables with C widths"),
+ "C11": ("publish-before-raise in every send, re-check after every wait in every receive, signal wait/raise CAS and exchange tables, bounded-channel claim and consume tables, multi-channel capacity tables with re-test after wait and wake-before-unlock",
+         "CFG dominance / must-pass-through rules + enumerated forced-branch tables on fiber_channel.h, fiber_multi_channel.h, fiber_signal.h"),
  "C12": ("arrival table over (count, arrival number): serial path, wake count, return values; counter-writer table; round-separation certificate with an enumerated list-selection table",
          "enumerated forced-branch tables + certificate recognition on fiber_barrier.c and the shared waker"),
  "C13": ("hazard-pointer typestate (loaded -> published -> re-validated -> dereferenced) at the three publication sites of the FIFO, push terminate/CAS/link order, pop read/CAS/retire order and guards, guarded empty report, head/tail writer table",
